@@ -219,7 +219,7 @@ def random_variant(rng, case):
     D = len(Ls)
     finite = case['bc_MPS'] == 'finite'
     kinds = ['irregular', 'irregular']
-    if not finite:
+    if case['bc_MPS'] == 'infinite':
         kinds.append('enlarge')
     if 'rows' not in case['order'] and 'grouped' not in case['order'] and cls != 'Lattice' and cls != 'SimpleLattice':
         if 'standard' not in case['order'] or cls not in SIMPLE:
